@@ -96,6 +96,13 @@ def resolve(fn, node, depth=0, keep=()):
                     and 0 <= n.slice.value < len(n.value.elts) and not any(
                         isinstance(e, ast.Starred) for e in n.value.elts):
                 return n.value.elts[n.slice.value]
+            # {'a': X, 'b': Y}['a']  ->  X
+            if isinstance(n.value, ast.Dict) and isinstance(n.slice, ast.Constant) \
+                    and all(isinstance(k, ast.Constant) for k in n.value.keys):
+                hits = [v for k, v in zip(n.value.keys, n.value.values)
+                        if k.value == n.slice.value and type(k.value) is type(n.slice.value)]
+                if len(hits) == 1:
+                    return hits[0]
             return n
     for x in ast.walk(node):
         x.__dict__.pop("_parent_tmp", None)
@@ -199,16 +206,33 @@ def role_of(fn, name):
         names = [x.id for x in ast.walk(tg) if isinstance(x, ast.Name)]
         if name not in names:
             continue
-        src = rtext(fn, it)
+        src = _request_text(fn, it)
         if isinstance(it, ast.Call) and unparse(it.func) == "enumerate" and it.args \
                 and isinstance(tg, ast.Tuple) and len(tg.elts) == 2:
             kind = "index" if unparse(tg.elts[0]) == name else "each"
-            return f"{kind}({rtext(fn, it.args[0])})"
+            return f"{kind}({_request_text(fn, it.args[0])})"
         return f"each({src})"
     defs = single_defs(fn)
     if name in defs:
         return None         # resolved by substitution
+    import builtins
+    if hasattr(builtins, name) and not any(
+            isinstance(n, ast.Name) and n.id == name and isinstance(n.ctx, ast.Store)
+            for n in ast.walk(fn)):
+        return None         # int, str, len, ...: the builtin itself
     return "local"          # several bindings: a working variable of the function
+
+
+def _request_text(fn, node):
+    """resolved text of what a loop runs over; the default of a keyword request, which is only
+    iterated, reads the same as a tuple or as a list: kwargs.get('it', (0,)) ~ [0]"""
+    r = resolve(fn, node)
+    for c in ast.walk(r):
+        if isinstance(c, ast.Call) and isinstance(c.func, ast.Attribute) and c.func.attr == "get" \
+                and len(c.args) == 2 and isinstance(c.args[1], ast.Tuple) \
+                and all(isinstance(e, ast.Constant) for e in c.args[1].elts):
+            c.args[1] = ast.List(elts=c.args[1].elts, ctx=ast.Load())
+    return unparse(r)
 
 
 def sem_template(fn, node):
@@ -731,10 +755,12 @@ def template_agreement(rep):
     norms = {}
     for fn, nm in ((sv, "save_data"), (rd, "read_aurel_data")):
         binds = [n for n in ast.walk(fn) if isinstance(n, ast.Assign)
-                 and "kwargs.get('it'" in unparse(n.value)]
+                 and isinstance(n.targets[0], ast.Name)
+                 and re.match(r"^(?:(?:sorted|set|list|tuple|np\.array|np\.unique)\()*"
+                              r"kwargs\.get\('it'", rtext(fn, n.value))]
         if len(binds) != 1:
             raise AnalysisError(f"{nm}: the binding of the iterations from kwargs not found")
-        norms[nm] = unparse(binds[0].value)
+        norms[nm] = rtext(fn, binds[0].value)
         rep.check(norms[nm].startswith("sorted(set(kwargs.get('it'"), "template-agreement",
                   f"{RD}::{nm}::it-normalisation",
                   "iterations must be normalised with sorted(set(kwargs.get('it', ...)))",
@@ -2664,10 +2690,26 @@ def regex_users(rep):
 
 def content_file(rep):
     fn = fnode(rep, "get_content")
+    # get_content together with the private module-level helpers it is split into
+    mod = {f.name: f for f in rep.sources.module(RD).body if isinstance(f, ast.FunctionDef)}
+    scope, todo = [], [fn]
+    while todo:
+        g = todo.pop()
+        if any(g is x for x in scope):
+            continue
+        scope.append(g)
+        for c in ast.walk(g):
+            if isinstance(c, ast.Call) and isinstance(c.func, ast.Name) \
+                    and c.func.id.startswith("_") and c.func.id in mod:
+                todo.append(mod[c.func.id])
+
+    def walk_scope():
+        for g in scope:
+            yield from ast.walk(g)
     # every split that rebuilds a key tuple and every join that flattens one use one literal
     # separator (whatever the surrounding loop / comprehension looks like)
     splits, joins = [], []
-    for n in ast.walk(fn):
+    for n in walk_scope():
         if isinstance(n, ast.Call) and isinstance(n.func, ast.Attribute) and len(n.args) == 1:
             if n.func.attr == "split" and isinstance(n.args[0], ast.Constant) \
                     and isinstance(getattr(n, "_parent", None), ast.Call) \
@@ -2688,9 +2730,9 @@ def content_file(rep):
               f"variable tuples must be joined and split with the same separator; found "
               f"join {sorted(set(joins))} split {sorted(set(splits))}", node=fn)
     sep = next(iter(seps))
-    loads = [n for n in ast.walk(fn) if isinstance(n, ast.Call)
+    loads = [n for n in walk_scope() if isinstance(n, ast.Call)
              and unparse(n.func) == "json.load"]
-    dumps = [n for n in ast.walk(fn) if isinstance(n, ast.Call)
+    dumps = [n for n in walk_scope() if isinstance(n, ast.Call)
              and unparse(n.func) == "json.dump"]
     rep.check(sep not in "".join(sorted(PATH_ALPHABET)) and bool(loads) and bool(dumps),
               "separator", f"{RD}::get_content::json-pair",
@@ -2702,7 +2744,7 @@ def content_file(rep):
     rep.check(not bad, "separator", "data/var_mappings.yml::known_groups",
               f"variable names containing the separator: {bad}", file="data/var_mappings.yml")
     # the scan result must not be remembered in module state
-    stores = [n for n in ast.walk(fn) if isinstance(n, ast.Assign)
+    stores = [n for n in walk_scope() if isinstance(n, ast.Assign)
               and isinstance(n.targets[0], ast.Subscript)
               and unparse(n.targets[0].value) in ("known_groups", "aurel_to_ET_varnames",
                                                   "ET_to_aurel_varnames",
@@ -2713,12 +2755,12 @@ def content_file(rep):
               + (norm_src(stores[0])[:60] if stores else ""), node=stores[0] if stores else fn)
     # processed_groups is local to one call
     # the memo that is consulted with `base_name in <memo>` is a dict created in this call
-    memos = {unparse(n.targets[0].value) for n in ast.walk(fn) if isinstance(n, ast.Assign)
+    memos = {unparse(n.targets[0].value) for n in walk_scope() if isinstance(n, ast.Assign)
              and isinstance(n.targets[0], ast.Subscript)
              and isinstance(n.targets[0].value, ast.Name)
              and "base_name" in unparse(n.targets[0].slice)}
     ok = bool(memos) and all(any(isinstance(a, ast.Assign) and unparse(a.targets[0]) == m
                                  and unparse(a.value) in ("{}", "dict()")
-                                 for a in ast.walk(fn)) for m in memos)
+                                 for a in walk_scope()) for m in memos)
     rep.check(ok, "module-state", f"{RD}::get_content::per-call-memo",
               "the per-call memo of group contents must be created inside the call", node=fn)
